@@ -750,7 +750,7 @@ def ev(ctx, t):
 
 def unwrap_ovf(t):
     """normalise `(a +? b).0` to bin(Add, a, b) recursively (for matching)"""
-    if not isinstance(t, tuple):
+    if not isinstance(t, tuple) or not t:
         return t
     if t[0] == "field" and t[2] == "0" and isinstance(t[1], tuple) and t[1][0] == "bin" and t[1][1].endswith("WithOverflow"):
         return ("bin", t[1][1][: -len("WithOverflow")], unwrap_ovf(t[1][2]), unwrap_ovf(t[1][3]))
